@@ -392,9 +392,15 @@ impl UpdateHandle {
         let mut path_proof_offset = 0;
         let mut witnessed_start = 0;
 
+        // Workers finish in any order, but the witnessed batches index into `read_write`
+        // cumulatively: aggregate the outputs in the order of the workers' key ranges.
+        let mut outputs = Vec::with_capacity(self.num_workers);
         for _ in 0..self.num_workers {
-            let output = join_task(&self.worker_rx)?;
+            outputs.push(join_task(&self.worker_rx)?);
+        }
+        outputs.sort_by_key(|output| output.range_start);
 
+        for output in outputs {
             if let Some(root) = output.root {
                 assert!(new_root.is_none());
                 new_root = Some(root);
@@ -492,6 +498,8 @@ enum RootPagePending {
 }
 
 struct WorkerOutput {
+    // the index in `read_write` at which the worker's key range starts.
+    range_start: usize,
     root: Option<Node>,
     witnessed_paths: Option<Vec<(WitnessedPath, Option<trie::LeafData>, usize)>>,
     updated_pages: Vec<UpdatedPage>,
@@ -500,6 +508,7 @@ struct WorkerOutput {
 impl WorkerOutput {
     fn new(witness: bool) -> Self {
         WorkerOutput {
+            range_start: 0,
             root: None,
             witnessed_paths: if witness { Some(Vec::new()) } else { None },
             updated_pages: Vec::new(),
